@@ -78,7 +78,10 @@ fn gen_date_num(r: &mut Rng) -> f64 {
     // boundary dates: epoch, year 1 / 0 / -1, year 9999 / 10000 (RFC 2822 limit), chrono's NaiveDate limits and beyond
     const EDGE: &[f64] = &[0.0, -0.0, 1.0, -1.0, 0.5, 0.25, 19000.75, -719162.0, -719163.0, -719528.0, -719529.0, -800000.0, 2932896.0, 2932896.99999999,
         2932897.0, 3000000.0, 5000000.0, -96465658.0, -96465659.0, 95026601.0, 95026601.999, 95026602.0, 1e10, -1e10, 1e300, -1e300, f64::NAN, f64::INFINITY, f64::NEG_INFINITY,
-        106751991167.0, -106751991168.0, 9.3e10];
+        106751991167.0, -106751991168.0, 9.3e10,
+        // the first and the last day chrono 0.4.45 represents (-262143-01-01, +262142-12-31) at several times of day: a zone offset of a few
+        // hours moves these across the limit
+        95026236.0, 95026236.04, 95026236.5, 95026236.96, 95026236.999, 95026237.0, -96465292.0, -96465291.999, -96465291.96, -96465291.5, -96465291.04, -96465293.0];
     match r.below(8) {
         0 => gen_num(r),
         1 | 2 => *r.pick(EDGE),
@@ -180,10 +183,19 @@ pub fn gen_args(r: &mut Rng, name: &str) -> Vec<V> {
         "string_to_date" => vec![s(&match r.below(5) { 0 => r.pick(&["2024-02-30", "2023-02-29", "2024-02-29", "0000-01-01", "9999-12-31", "2024-13-01", "2024-00-10", "2024-01-00", "2024-1-5", " 2024-01-05", "garbage", ""]).to_string(),
             _ => format!("{:04}-{:02}-{:02}", r.below(10000), r.below(14), r.below(33)) })],
         "string_to_time" => vec![s(&match r.below(5) { 0 => r.pick(&["23:59:60", "24:00:00", "00:60:00", "1:2:3", "12:00", "", "12:00:00.5"]).to_string(), _ => format!("{:02}:{:02}:{:02}", r.below(25), r.below(61), r.below(61)) })],
+        "string_to_datetime" if r.chance(1, 5) => { let (y, m, d) = *r.pick(DST_DAYS); vec![s(&format!("{:04}-{:02}-{:02} {:02}:{:02}:{:02}", y, m, d, 1 + r.below(3), r.below(60), r.below(60)))] }
         "string_to_datetime" => vec![s(&match r.below(5) { 0 => r.pick(&["2016-12-31 23:59:60", "2024-02-30 00:00:00", "2024-02-29T00:00:00", ""]).to_string(),
             _ => format!("{:04}-{:02}-{:02} {:02}:{:02}:{:02}", r.below(10000), 1 + r.below(12), 1 + r.below(29), r.below(24), r.below(60), r.below(61)) })],
         "date_from_rfc2822" => vec![s(&gen_rfc2822(r))],
         "date_from_rfc3339" => vec![s(&gen_rfc3339(r))],
+        n if n.starts_with("re_") && r.chance(1, 8) => {
+            // an INVALID pattern padded to 1..100 bytes with characters of 1-4 bytes (what an error message that abbreviates the pattern would cut)
+            let mut p = String::new(); let target = 1 + r.usize(100);
+            while p.len() < target { p.push(*r.pick(&['a', 'b', '1', ' ', 'é', 'ß', '日', '𝄞', 'x', '-'])); }
+            p.push_str(*r.pick(&["(", "[", "a{2,1}", "*", "\\", "(?P<", "[z-a]"]));
+            let h = s(*r.pick(&["", "abc", "日本"]));
+            match n { "re_replace" => vec![h, s(&p), s("x")], _ => vec![h, s(&p)] }
+        }
         n if n.starts_with("re_") => {
             let h = s(*r.pick(&["", "abc", "aaa", "a1b22c333", "Hello World", "äbc", "foo@bar.com", "2024-01-05"]));
             let p = sp(r, &["a", "a*", "(a)(b)?", "[0-9]+", "\\d+", "(", "a{1000000}", "^", "$", "b|c", "(?P<y>\\d{4})-(\\d\\d)", "\\b", ".", "", "((((((((((a))))))))))", "[", "\\", "(?i)HELLO", "ä"]);
